@@ -232,7 +232,7 @@ impl Check for C11 {
     fn runs(&self, tier: Tier) -> u64 {
         match tier {
             Tier::Quick => SWEEP + PLANES + 3_000,
-            Tier::Thorough => SWEEP + PLANES + 150_000,
+            Tier::Thorough => SWEEP + PLANES + 600_000,
         }
     }
     fn generate(&self, rng: &mut Rng, _tier: Tier, idx: u64) -> Scn {
